@@ -74,10 +74,21 @@ func init() {
 // ---- op syntax -------------------------------------------------------------------------------------------------
 
 type body struct {
-	kind  string // alias object typeset bare malformed empty unreadable
+	kind  string // alias object typeset bare malformed empty unreadable; xref op only: bareobject barehash
 	name  string
 	types []string
 	line  int
+	// the extended forms of the implementation-only op `xref` (xref.go): definitions that REFER to other definitions
+	ext    bool
+	refs   []string // type names the definition (every member of a type set) refers to
+	tsrefs []tsref  // type set only: the `references` of the type set
+}
+
+// tsref: one entry of a type set's `references` (alias RefI => {name => set, version_range => '1.x'}); member != "": the
+// first object member of the referring type set has an attribute of type RefI::member
+type tsref struct {
+	set, member string
+	major       int // 0 or 1: version_range => '1.x' (every generated type set has version 1.0.0); 2: '2.x', a mismatch
 }
 
 type file struct {
@@ -113,9 +124,37 @@ func bodyOf(e sx.Sexp) body {
 	a := e.Args()
 	switch e.Tag() {
 	case "alias", "object":
+		if len(a) == 2 {
+			return body{kind: e.Tag(), name: a[0].MustStr(), ext: true, refs: strs(a[1])}
+		}
 		return body{kind: e.Tag(), name: a[0].MustStr()}
 	case "typeset":
+		if len(a) == 4 {
+			b := body{kind: "typeset", name: a[0].MustStr(), types: strs(a[1]), ext: true, refs: strs(a[2])}
+			if !a[3].IsList {
+				panic(fmt.Errorf("bad body %s", e))
+			}
+			for _, r := range a[3].List {
+				if !r.IsList || (len(r.List) != 2 && len(r.List) != 3) {
+					panic(fmt.Errorf("bad body %s", e))
+				}
+				t := tsref{set: r.List[0].MustStr(), member: r.List[1].MustStr()}
+				if len(r.List) == 3 {
+					t.major = int(r.List[2].MustInt())
+					if t.major != 2 {
+						panic(fmt.Errorf("bad body %s", e))
+					}
+				}
+				b.tsrefs = append(b.tsrefs, t)
+			}
+			return b
+		}
 		return body{kind: "typeset", name: a[0].MustStr(), types: strs(a[1])}
+	case "bareobject", "barehash":
+		if len(a) != 0 {
+			panic(fmt.Errorf("bad body %s", e))
+		}
+		return body{kind: e.Tag(), ext: true}
 	case "bare", "empty", "unreadable":
 		if len(a) != 0 {
 			panic(fmt.Errorf("bad body %s", e))
@@ -131,14 +170,35 @@ func bodyOf(e sx.Sexp) body {
 	panic(fmt.Errorf("bad body %s", e))
 }
 
+func strList(ss []string) sx.Sexp {
+	out := make([]sx.Sexp, len(ss))
+	for i, s := range ss {
+		out[i] = sx.Str(s)
+	}
+	return sx.L(out...)
+}
+
 func (b body) sexp() sx.Sexp {
 	switch b.kind {
 	case "alias", "object":
+		if b.ext {
+			return sx.T(b.kind, sx.Str(b.name), strList(b.refs))
+		}
 		return sx.T(b.kind, sx.Str(b.name))
 	case "typeset":
 		ts := make([]sx.Sexp, len(b.types))
 		for i, t := range b.types {
 			ts[i] = sx.Str(t)
+		}
+		if b.ext {
+			rs := make([]sx.Sexp, len(b.tsrefs))
+			for i, r := range b.tsrefs {
+				rs[i] = sx.L(sx.Str(r.set), sx.Str(r.member))
+				if r.major == 2 {
+					rs[i] = sx.L(sx.Str(r.set), sx.Str(r.member), sx.Int(2))
+				}
+			}
+			return sx.T("typeset", sx.Str(b.name), sx.L(ts...), strList(b.refs), sx.L(rs...))
 		}
 		return sx.T("typeset", sx.Str(b.name), sx.L(ts...))
 	case "malformed", "literal":
@@ -339,6 +399,16 @@ func (s spec) wellFormed() bool {
 				ts[strings.ToLower(t)] = true
 			}
 		}
+		for _, r := range f.body.refs {
+			if !typeNameOK(r) {
+				return false
+			}
+		}
+		for _, r := range f.body.tsrefs {
+			if !typeNameOK(r.set) || (r.member != "" && !typeSegRx.MatchString(r.member)) {
+				return false
+			}
+		}
 	}
 	for _, l := range s.lookups {
 		if l.op != "discover" && !nameOK(l.name) {
@@ -354,6 +424,9 @@ func (s spec) wellFormed() bool {
 // ---- materialising a tree -----------------------------------------------------------------------------------------
 
 func (b body) text() string {
+	if b.ext {
+		return b.extText()
+	}
 	switch b.kind {
 	case "alias":
 		return "# a definition\n\ntype " + b.name + " = Variant[String,Integer]\n# trailing comment\n"
@@ -455,6 +528,8 @@ func (o outcome) String() string {
 		s = "found " + o.tkind + " " + sx.Str(o.name).Atom
 	case "reported":
 		s = fmt.Sprintf("reported %s %s %d", o.code, o.file, o.line)
+	case "unprintable":
+		s = "unprintable " + o.code
 	case "has":
 		return "has " + sx.B(o.has)
 	case "names":
@@ -479,7 +554,12 @@ func relTo(root, p string) (string, bool) {
 // arguments) or a runtime fault
 func classify(root string, e interface{}) outcome {
 	if r, ok := e.(issue.Reported); ok {
-		if strings.Contains(r.Error(), "runtime error:") || strings.Contains(r.Error(), "interface conversion") {
+		msg, printable := errorText(r)
+		if !printable {
+			// a reported error whose own message cannot be formatted (Error() panics): the error is of no use to the caller
+			return outcome{kind: "unprintable", code: string(r.Code())}
+		}
+		if strings.Contains(msg, "runtime error:") || strings.Contains(msg, "interface conversion") {
 			return outcome{kind: "fault"}
 		}
 		o := outcome{kind: "reported", code: string(r.Code()), file: "-"}
@@ -500,6 +580,16 @@ func classify(root string, e interface{}) outcome {
 		return o
 	}
 	return outcome{kind: "fault"}
+}
+
+// errorText: the message of a reported issue; printable = false when formatting it panics
+func errorText(r issue.Reported) (msg string, printable bool) {
+	defer func() {
+		if recover() != nil {
+			msg, printable = "", false
+		}
+	}()
+	return r.Error(), true
 }
 
 type world struct {
@@ -576,7 +666,10 @@ func (w *world) run(c px.Context, l lookup) (o outcome) {
 		if e := recover(); e != nil {
 			o = classify(w.root, e)
 			if os.Getenv("VERIF_DEBUG") != "" {
-				fmt.Fprintf(os.Stderr, "C15 %s %s: %v\n", l.op, l.name, e)
+				func() {
+					defer func() { recover() }()
+					fmt.Fprintf(os.Stderr, "C15 %s %s: %v\n", l.op, l.name, e)
+				}()
 			}
 		}
 		after := readsNow(w.root)
@@ -635,7 +728,7 @@ func (w *world) run(c px.Context, l lookup) (o outcome) {
 }
 
 func exec(c px.Context, op string, args []sx.Sexp) core.Result {
-	forked, strict, nsprobe := false, false, false
+	forked, strict, nsprobe, xref := false, false, false, false
 	switch op {
 	case "tree":
 	case "nsprobe":
@@ -651,6 +744,10 @@ func exec(c px.Context, op string, args []sx.Sexp) core.Result {
 		// implementation-only (`@C15 forked …`): every lookup runs under a fresh px.NewParentedLoader(via), the loader a
 		// forked context (pcore.DoWithParent, px.Fork) has
 		forked = true
+	case "xref":
+		// implementation-only (`@C15 xref …`, xref.go): a `tree` op whose definitions refer to each other — across files,
+		// inside a type set, through the `references` of a type set — and bare Object / hash bodies; judged by the same oracle
+		xref = true
 	case "tn", "ep":
 		return execPath(op, args)
 	case "ctor":
@@ -661,6 +758,14 @@ func exec(c px.Context, op string, args []sx.Sexp) core.Result {
 	s, err := specOf(args)
 	if err != nil {
 		return core.Result{Out: "bad-op", Pred: "FAIL harness-bad-op " + err.Error()}
+	}
+	if !xref {
+		for _, f := range s.files {
+			if f.body.ext {
+				// the extended bodies have no model counterpart
+				return core.Result{Out: "bad-op", Pred: "FAIL harness-bad-op extended body outside xref"}
+			}
+		}
 	}
 	if !s.wellFormed() {
 		return core.Result{Out: "bad-tree", Pred: "n/a"}
@@ -711,6 +816,9 @@ func exec(c px.Context, op string, args []sx.Sexp) core.Result {
 		if nsLeak != "" && !strings.HasPrefix(res.Pred, "FAIL") {
 			res = core.Fail(out, "namespace-leak", nsLeak)
 		}
+	}
+	if xref {
+		res.Tags = append(res.Tags, "xref")
 	}
 	if forked {
 		// the same oracle; a definition that is lost with the fork that loaded it gets its own class
